@@ -520,7 +520,8 @@ def run(chk):
                         short = json.dumps(diff, default=lambda b: b.decode('latin1') if isinstance(b, bytes) else str(b))[:500]
                         chk.oracle_failure(f'{where}: re-running the command and `xvc file recheck` does not reach the uninterrupted state (rerun rc={rerun[0]} {rerun[1]}): {short}',
                                            dict(scen, command=' '.join(argv or arg2), kill_before_call=f'{k[0]}#{k[1]}', at=at), None,
-                                           signature=dict(phase, kind='rerun-diverges', rerun_rc=('ok' if rerun[0] == 0 else 'error'), cmd=sig_cmd(cname), source=source))
+                                           signature=dict(phase, kind='rerun-diverges', rerun_rc=('ok' if rerun[0] == 0 else 'error'), cmd=sig_cmd(cname), source=source,
+                                                          killed_at=(f'{at[0]}:{at[1]}' if isinstance(at, (tuple, list)) else str(at))))
                 else:
                     msg, sig = f
                     chk.oracle_failure(msg, dict(scen, command=' '.join(argv or arg2), kill_before_call=f'{k[0]}#{k[1]}'), None, signature=sig)
